@@ -118,6 +118,8 @@ class _GaussianGammaPair(_ConjugatePair):
         # Extract variables
         b = self.target.likelihood.data                                 # mu
         m = len(b)                                                      # n
+        if isinstance(self.target.likelihood.distribution, GMRF):
+            m = self.target.likelihood.distribution._rank               # the precision enters the density with this power (n-1 for Neumann and periodic boundaries)
         Ax = self.target.likelihood.distribution.mean                   # x_i
         L = self.target.likelihood.distribution(np.array([1])).sqrtprec # L
         alpha = self.target.prior.shape                                 # alpha
